@@ -9,6 +9,7 @@ import (
 	"encoding/binary"
 	"encoding/pem"
 	"fmt"
+	"sync"
 	"time"
 
 	"go.minekube.com/gate/pkg/edition/java/auth"
@@ -187,6 +188,105 @@ func main() {
 			ln = 16
 		}
 		sid(a, r.Bytes(ln))
+	}
+
+	// ---- concurrent probe: many logins at once, every one must get the id of ITS OWN secret ----
+	// 16 goroutines call GenerateServerID in a tight loop, each on its own distinct secrets (worker index and
+	// round counter are part of the secret), spread over both authenticators.  The expected id of every input is
+	// pre-computed sequentially through the same entry point.  Emitted cases: the first and last round of every
+	// worker (deterministic on correct code), every (input, concurrent result) that differs from the sequential
+	// result (none on correct code: the verdict depends only on a result that is wrong for its input), and a
+	// summary line with the number of such differences.
+	{
+		workers, rounds := 16, run.Scale(20000, 150000)
+		mkSecret := func(w, i int) []byte {
+			sec := make([]byte, 16)
+			binary.BigEndian.PutUint32(sec, uint32(w))
+			sec[4] = 0xC0
+			binary.BigEndian.PutUint64(sec[8:], uint64(i))
+			return sec
+		}
+		want := make([][]string, workers)
+		for w := range want {
+			want[w] = make([]string, rounds)
+			a := auths[w%len(auths)]
+			for i := range want[w] {
+				s, err := a.GenerateServerID(mkSecret(w, i))
+				if err != nil {
+					s = "err"
+				}
+				want[w][i] = s
+			}
+		}
+		type miss struct {
+			w, i int
+			got  string
+		}
+		var mu sync.Mutex
+		var misses []miss
+		total := 0
+		first, last := make([]string, workers), make([]string, workers)
+		start := make(chan struct{})
+		var wg sync.WaitGroup
+		for w := 0; w < workers; w++ {
+			wg.Add(1)
+			go func(w int) {
+				defer wg.Done()
+				defer func() { _ = recover() }()
+				a := auths[w%len(auths)]
+				var local []miss
+				n := 0
+				<-start
+				for i := 0; i < rounds; i++ {
+					got, err := a.GenerateServerID(mkSecret(w, i))
+					if err != nil {
+						got = "err"
+					}
+					if i == 0 {
+						first[w] = got
+					}
+					if i == rounds-1 {
+						last[w] = got
+					}
+					if got != want[w][i] {
+						n++
+						if len(local) < 4 {
+							local = append(local, miss{w, i, got})
+						}
+					}
+				}
+				mu.Lock()
+				misses = append(misses, local...)
+				total += n
+				mu.Unlock()
+			}(w)
+		}
+		done := make(chan struct{})
+		go func() { wg.Wait(); close(done) }()
+		close(start)
+		select {
+		case <-done:
+		case <-time.After(120 * time.Second):
+			run.Case("csid/hang", fmt.Sprintf("csum %d %d", workers, rounds), "hang")
+		}
+		mu.Lock()
+		emitted := map[[2]int]bool{}
+		emit := func(cl string, w, i int, got string) {
+			if emitted[[2]int{w, i}] {
+				return
+			}
+			emitted[[2]int{w, i}] = true
+			run.Case(cl, "csid "+hx.Hex(mkSecret(w, i))+" "+hx.Hex(auths[w%len(auths)].PublicKey()), "id="+got)
+		}
+		for _, m := range misses {
+			emit("csid/mismatch", m.w, m.i, m.got)
+		}
+		for w := 0; w < workers; w++ {
+			emit("csid/sample", w, 0, first[w])
+			emit("csid/sample", w, rounds-1, last[w])
+		}
+		run.Case("csid/summary", fmt.Sprintf("csum %d %d", workers, rounds), fmt.Sprintf("mismatches=%d", total))
+		mu.Unlock()
 	}
 
 	// ---- twosComplement on arbitrary byte strings (carry chains of every length) ----
